@@ -199,7 +199,10 @@ class Walker(object):
             self.emit(label, list(raws), ekind, eid)
         else:
             if X == 31 and (self.dw or self.ds or self.m207):
-                raise Unsupported('operator in force on class 31')
+                # grey31 (differential checks only): follow the library's reading for a WIDTH change - the factor is a numeric
+                # field like any other and is read with the changed width
+                if not (getattr(self, 'grey31', False) and not self.ds and not self.m207):
+                    raise Unsupported('operator in force on class 31')
             w = width + self.dw + ((10 * self.m207 + 2) // 3 if self.m207 else 0)
             s = scale + self.ds + self.m207
             if marker == 225255:
@@ -224,6 +227,7 @@ class Walker(object):
 
     noncanon_unit_under_op = False
     grey221 = False
+    grey31 = False
 
     def next_bitmapped(self):
         if self.cur is None:
